@@ -512,7 +512,11 @@ class Gen:
             if any(x["kind"] == kind and x["buffer"] == i["buffer"] for x in spec["indicators"]):
                 return None
         elif kind == "FromMathExpression":
-            ts = self._tasks()
+            # reading the times of a task that may be unscheduled is meaningless
+            # (a placeholder value): user expressions range over mandatory tasks
+            ts = self._tasks(optional=False)
+            if not ts:
+                return None
             t = rng.choice(ts)
             e = [rng.choice(["s", "e"]), t]
             if len(ts) > 1 and rng.random() < 0.6:
